@@ -300,6 +300,7 @@ type c16lRun struct {
 	clamp  [3]atomic.Uint64 // commit index the node is allowed to learn (0 = no limit)
 	fresh  [3]bool          // the condition keeps this node in contact with the leader: read only while the contact is recent
 	held   [3]bool          // the condition holds this node's commit index back
+	known  [3]atomic.Uint64 // index of the last command the node received, as watched by the harness (0 = ask the Store)
 }
 
 func (x *c16lRun) fail(f string, a ...any) {
@@ -385,6 +386,10 @@ func (x *c16lRun) one(cs c16lCase, level proto.ConsistencyLevel) {
 		pre := c16lSnapOf(s)
 		outcome, err := c16lRead(s, cs, level)
 		post := c16lSnapOf(s)
+		if k := x.known[cs.Node].Load(); k > 0 {
+			// the harness watched the requests itself: "behind" is judged by what the node received
+			pre.ci, post.ci = k, k
+		}
 		if err == nil && (level == proto.ConsistencyLevel_STRONG || level == proto.ConsistencyLevel_LINEARIZABLE) {
 			x.afterLogRead(cs.Node)
 		}
@@ -757,6 +762,10 @@ func c16lJob(t *testing.T, r *kit.Run, job string, rotate bool, filter *c16lCase
 		x.jobA()
 	case 'B':
 		x.jobB()
+	case 'M':
+		x.jobM()
+	case 'L':
+		x.jobL()
 	default:
 		x.jobW()
 	}
@@ -774,7 +783,9 @@ func TestVerif_C16_live(t *testing.T) {
 			os.Stderr = f
 		}
 	}
-	r.Rule("on live clusters of real Stores (leader + voting follower + non-voter): full product of level {NONE, WEAK, STRONG, LINEARIZABLE, AUTO} x node {leader, follower, non-voter} x API {Store.Query, Store.Request with a read-only statement} x freshness {0, 500ms, 1h} x freshness_strict {off, on}, under each node condition {healthy; non-voter cut off longer than the small bound; follower and non-voter restarted and caught up; follower and non-voter holding a received but unapplied command, last applied promptly; the same with the last applied command held back longer than the small bound; leader isolated inside its lease; the same after the lease ran out; healed}. Every answer is compared with the documented table evaluated on the node's own raft state and timestamps read before and after the read. Job W (c16_wiring_test.go): on a follower and a non-voter in contact / cut off longer than the small bound, and on the leader, every combination of FSM update time {now-1s, now-2h} x appended-at time {never, now-1.1s, now-3s, now-5h, now-90min} x FSM index {5,7,9} x received-command index {5,7,9} x freshness x strict is stored into the node's real fields and the real Store.isStaleRead is compared with the reference rule of part (a). thorough: the same with the other voter leading, jobs A and B twice. evaluations = reads judged + grid points; distinct = (condition, role, level, API, freshness, strict, documented answer and reason, answer)")
+	r.Rule("on live clusters of real Stores (leader + voting follower + non-voter): full product of level {NONE, WEAK, STRONG, LINEARIZABLE, AUTO} x node {leader, follower, non-voter} x API {Store.Query, Store.Request with a read-only statement} x freshness {0, 500ms, 1h} x freshness_strict {off, on}, under each node condition {healthy; non-voter cut off longer than the small bound; follower and non-voter restarted and caught up; follower and non-voter holding a received but unapplied command, last applied promptly; the same with the last applied command held back longer than the small bound; leader isolated inside its lease; the same after the lease ran out; healed}. Every answer is compared with the documented table evaluated on the node's own raft state and timestamps read before and after the read. Job W (c16_wiring_test.go): on a follower and a non-voter in contact / cut off longer than the small bound, and on the leader, every combination of FSM update time {now-1s, now-2h} x appended-at time {never, now-1.1s, now-3s, now-5h, now-90min} x FSM index {5,7,9} x received-command index {5,7,9} x freshness x strict is stored into the node's real fields and the real Store.isStaleRead is compared with the reference rule of part (a). Job M (c16_batch_test.go): follower and non-voter cut off while three writes wait in the leader's log, healed after more than the small bound so that each receives the three commands in ONE AppendEntries request, commit index held at the first: the Store's received-command index must be the last command's index, and the full product of reads on both nodes is judged with the index the harness watched (strict + small bound refused, controls served). Job L: after a strong read in the leader's term a slow write is sent to the leader; once raft's commit index covers it and it is still being applied, a LINEARIZABLE read of its row through each API (60 s timeout) must return the row; missed windows are counted, not judged. thorough: the same with the other voter leading, jobs A, B, M and L twice. evaluations = reads judged + grid points; distinct = (condition, role, level, API, freshness, strict, documented answer and reason, answer)")
+	r.Add("slow_write_windows_hit", 0)
+	r.Add("slow_write_windows_missed", 0)
 	r.Assume("interleavings inside hashicorp/raft are uncontrolled; conditions are reached by deterministic set-up (partition, then poll the node's own last-contact age; commit index held back through rqlite's AppendEntries receive hook) and every expectation is computed from the node's state read immediately before and after the read; a read whose bracket allows both answers is repeated")
 	r.Assume("all raft timeouts are 5 s (kit default): an isolated leader keeps believing for 5 s, followers do not start elections during a condition; the non-voter never stands for election")
 	r.Note("observed while building this part (not a C16 violation): NodeTransport's received-command index is stored from every AppendEntries request before raft validates it, so a late request of a deposed leader's term sets it back below the node's applied index; IsStaleRead treats 'applied index ahead' as not behind, so no read is affected.")
@@ -784,9 +795,9 @@ func TestVerif_C16_live(t *testing.T) {
 		name   string
 		rotate bool
 	}
-	jobs := []job{{"A", false}, {"B", false}, {"W", false}}
+	jobs := []job{{"A", false}, {"B", false}, {"W", false}, {"M", false}, {"L", false}}
 	if r.Thorough() {
-		jobs = []job{{"A", false}, {"B", false}, {"W", false}, {"A-rotated", true}, {"B-rotated", true}, {"W-rotated", true}, {"A-2", false}, {"B-2", false}, {"A-rotated-2", true}, {"B-rotated-2", true}}
+		jobs = []job{{"A", false}, {"B", false}, {"W", false}, {"M", false}, {"L", false}, {"M-rotated", true}, {"L-rotated", true}, {"M-2", false}, {"L-2", false}, {"A-rotated", true}, {"B-rotated", true}, {"W-rotated", true}, {"A-2", false}, {"B-2", false}, {"A-rotated-2", true}, {"B-rotated-2", true}}
 	}
 	if js := os.Getenv("VERIF_C16_JOBS"); js != "" {
 		// development aid: VERIF_C16_JOBS="B B-rotated" runs just these jobs
